@@ -210,25 +210,25 @@ def sdo_step_insts(tier):
     return out
 
 
-def sdo_xfer_inst(xf, tgt, N, pre=0, ptgt=6, dom=16, ubl=4, nseg=2, lose=0, bs=2, fill=0, ak=(), bs2=None):
+def sdo_xfer_inst(xf, tgt, N, pre=0, ptgt=6, dom=16, ubl=4, nseg=2, lose=0, bs=2, fill=0, ak=(), bs2=None, bsp=0):
     defs = dict(NODE_DEFS)
     defs.update({'XF': xf, 'TGT': tgt, 'PRE': pre, 'PTGT': ptgt, 'CO_VERIF_SDO_BUF_SEG': N, 'OD_DOM_SIZE': dom, 'UBL': ubl,
                  'NSEG': nseg, 'LOSE': lose, 'BS': bs, 'FILL': fill})
     if xf == 4:
-        defs.update({'AK': '{' + ','.join(str(a) for a in (ak or (0,))) + '}', 'AKN': len(ak), 'BS2': bs2 if bs2 is not None else bs})
-    name = 'sdo_xfer_x%d_%s_n%d_s%d%s%s%s%s' % (xf, SDO_TGT[tgt], N, nseg, ('f%d' % fill) if fill else '', ('_l%d' % lose) if xf == 3 else '', ('_b%d%s%s' % (bs, ('to%d' % bs2) if bs2 not in (None, bs) else '', ('_a' + ''.join(str(a) for a in ak)) if ak else '')) if xf == 4 else '',
+        defs.update({'AK': '{' + ','.join(str(a) for a in (ak or (0,))) + '}', 'AKN': len(ak), 'BS2': bs2 if bs2 is not None else bs, 'BSP': bsp})
+    name = 'sdo_xfer_x%d_%s_n%d_s%d%s%s%s%s' % (xf, SDO_TGT[tgt], N, nseg, ('f%d' % fill) if fill else '', ('_l%d' % lose) if xf == 3 else '', ('_b%d%s%s' % (bs, ('to%d' % bs2) if bs2 not in (None, bs) else '', (('_a' + ''.join(str(a) for a in ak)) if ak else '') + (('p%d' % bsp) if bsp else ''))) if xf == 4 else '',
                                              ('_pre%d' % pre + ('_%s' % SDO_TGT[ptgt] if ptgt != 6 else '')) if pre else '')
     kinds = ['expedited download + read back', 'segmented download', 'segmented upload', 'block download', 'block upload with partial acknowledges']
     size = '1..4' if nseg == 0 else ('5..7' if nseg == 1 else '%d..%d' % (7 * (nseg - 1) + 1, 7 * nseg))
     if fill:
         size = str(fill if nseg == 0 else 7 * (nseg - 1) + fill)
     return Inst(name, 'sdo_xfer.c', defs, unwind=max(dom + 10, 7 * N + 2, 22), unwindset=node_unwind(N, dom=dom), objbits=10,
-                harness_only=['XF', 'TGT', 'PRE', 'PTGT', 'UBL', 'NSEG', 'LOSE', 'BS', 'FILL', 'AK', 'AKN', 'BS2'], family='sdo_xfer', weight=3 if xf >= 3 else 1,
+                harness_only=['XF', 'TGT', 'PRE', 'PTGT', 'UBL', 'NSEG', 'LOSE', 'BS', 'FILL', 'AK', 'AKN', 'BS2', 'BSP'], family='sdo_xfer', weight=3 if xf >= 3 else 1,
                 bounds='%s of %s, block size N=%d, size %s bytes symbolic (%d segments), payload/contents/size-indication symbolic%s%s%s' % (
                     kinds[xf], SDO_TGT[tgt], N, size, nseg,
                     (', segment %d of every first try lost' % lose) if (xf == 3 and lose) else '',
                     (', requested block size %d (then %s), partial acknowledges %s then complete ones' % (bs, bs2 if bs2 is not None else bs, list(ak))) if xf == 4 else '',
-                    '' if not pre else ('; preceded by an arbitrary server state of phase %d (open on %s) and %s' % ((pre - 1) % 5, SDO_TGT[ptgt], 'a client abort' if pre <= 5 else 'NMT reset communication'))))
+                    (', block size %d announced inside the partial acknowledges' % bsp if bsp else '') + ('' if not pre else ('; preceded by an arbitrary server state of phase %d (open on %s) and %s' % ((pre - 1) % 5, SDO_TGT[ptgt], 'a client abort' if pre <= 5 else ('NMT reset communication' if pre <= 10 else 'nothing else'))))))
 
 
 def c02(tier):
@@ -288,19 +288,26 @@ def c03(tier):
                             continue
                         ubl = len(ak) + segs + 1
                         out.append(sdo_xfer_inst(4, t, N, dom=dom, nseg=ns, bs=bs, bs2=bs2, ak=ak, ubl=ubl, fill=f))
+                # a new block size announced inside a partial acknowledge
+                if t == 6 and segs >= 2 and (tier != 'quick' or f in (1, 7)):
+                    for bs, bsp in ((2, 1), (1, 2), (2, 127)) + (((3, 1), (3, 2), (1, 3)) if N >= 3 else ()):
+                        ebs = min(bs, N)
+                        for a in range(ebs):
+                            for ak in (((a,),) if tier == 'quick' else ((a,), (a, a), (ebs, a))):
+                                out.append(sdo_xfer_inst(4, t, N, dom=dom, nseg=ns, bs=bs, bs2=bs, ak=ak, ubl=len(ak) + 2 * segs + 1, fill=f, bsp=bsp))
     return out
 
 
 def c05(tier):
     out = []
-    for pre in range(1, 11):
+    for pre in range(1, 12):
         for xf, t in ((0, 2), (1, 6), (2, 6), (2, 7), (3, 6), (4, 6), (4, 7)):
             out.append(sdo_xfer_inst(xf, t, 2, pre=pre, dom=14, ubl=4, nseg=2, bs=2, fill=0 if xf == 0 else 3, ak=(1,) if xf == 4 else ()))
         # transfers of at most 4 bytes on domain / string (stale offset of the earlier access)
         out.append(sdo_xfer_inst(1, 6, 2, pre=pre, dom=14, nseg=0, fill=3))
         out.append(sdo_xfer_inst(3, 6, 2, pre=pre, dom=14, nseg=0, fill=3))
         out.append(sdo_xfer_inst(2, 6, 2, pre=pre, dom=14, nseg=0, fill=3))
-        if (pre - 1) % 5 in (1, 4):
+        if (pre - 1) % 5 in (1, 4) and pre != 11:
             out.append(sdo_xfer_inst(2, 7, 2, pre=pre, ptgt=7, dom=14, nseg=0, fill=3))
             out.append(sdo_xfer_inst(4, 7, 2, pre=pre, ptgt=7, dom=14, ubl=3, nseg=0, bs=2, ak=(0,), fill=3))
     return out
@@ -580,6 +587,11 @@ def c13(tier):
     for mode in (2, 4):
         out.append(rpdo_inst('l_w_b', mode=mode, seq='RF'))
     out.append(rpdo_inst('l_w_b', seq='FR'))
+    # NMT changes between a reception and its SYNC
+    for sq in ('RPS', 'RZS', 'RPNS', 'RZNLS', 'RPLNS', 'RSPNS', 'PNRS', 'RPNRS', 'ZNRLS'):
+        out.append(rpdo_inst('w_b', ch=0, t0=1, t1=255, seq=sq))
+    for sq in ('RPNR', 'ZRNR', 'PRS'):
+        out.append(rpdo_inst('w_b', ch=0, t0=254, t1=255, seq=sq))
     # channel tables: which channels exist, which are synchronous (sync above async included)
     for ch, t0, t1 in ((1, 255, 254), (1, 254, 254), (1, 254, 1), (0, 1, 254), (1, 1, 1), (1, 255, 1), (0, 240, 255)):
         seqs = ['R', 'RS'] if (t0 if ch == 0 else t1) > 240 else ['RS', 'S', 'SR', 'RSS', 'SRS', 'RLS', 'RSL', 'RRS', 'LSR']
@@ -633,21 +645,23 @@ TPDO_SEQS = [
 ]
 
 
-def tpdo_inst(mapname, seq, inh, evt, ttype, vals=(1, 1, 1, 1, 1, 1, 1, 1, 1)):
+def tpdo_inst(mapname, seq, inh, evt, ttype, vals=(1, 1, 1, 1, 1, 1, 1, 1, 1), type2=None):
     m = TPDO_MAPS[mapname]
     defs = dict(NODE_DEFS)
     defs.update({'MAP': '{' + ','.join('0x%08X' % x for x in m) + '}', 'MAPN': len(m), 'OPSEQ': '"%s"' % seq, 'INH0': inh, 'EVT0': evt, 'TTYPE': ttype,
                  'VALS': '{' + ','.join(str(v) for v in vals) + '}', 'CO_VERIF_SDO_BUF_SEG': 2, 'CO_TPDO_N': 1, 'OD_TMR_N': 4})
     if (('O' in seq) or ('Q' in seq)) and (inh or evt):
         defs['CONCV'] = None
+    if type2 is not None:
+        defs['TYPE2'] = type2
     uw = node_unwind(2)
     uw.update(lss_unwind())
     uw.update({'COSyncInit': 4, 'COSyncHandler': 4, 'COSyncUpdate': 4, 'COSyncRx': 9, 'CORPdoCheck': 4, 'CORPdoReset': 10, 'CORPdoWrite': 10, 'CORPdoGetMap': 10,
                'COTPdoGetMap': 10, 'COTPdoTx': 10, 'COTmrClear': 4, 'COEmcyReset': 6, 'COTmrDelete': 5, 'COTmrInsert': 5, 'COTmrRemove': 6, 'COTmrProcess': 5,
                'COTmrReset': 5, 'CoVerifTmrPool': 5, 'check_frame': 9, 'COTPdoTrigObj': 9, 'COTPdoMapClear': 9, 'COTPdoMapAdd': 9})
-    return Inst('tpdo_%s_%s_i%d_e%d_t%d%s' % (mapname, seq, inh, evt, ttype, '' if vals[0] == 1 and len(set(vals)) == 1 else '_v' + ''.join(str(v) for v in vals[:len(seq)])),
+    return Inst('tpdo_%s_%s_i%d_e%d_t%d%s%s' % (mapname, seq, inh, evt, ttype, ('to%d' % type2) if type2 is not None else '', '' if vals[0] == 1 and len(set(vals)) == 1 else '_v' + ''.join(str(v) for v in vals[:len(seq)])),
                 'tpdo_bmc.c', defs, unwind=18, unwindset=uw, objbits=10,
-                harness_only=['MAP', 'MAPN', 'OPSEQ', 'INH0', 'EVT0', 'TTYPE', 'VALS', 'CONCV'], family='tpdo_bmc',
+                harness_only=['MAP', 'MAPN', 'OPSEQ', 'INH0', 'EVT0', 'TTYPE', 'VALS', 'CONCV', 'TYPE2'], family='tpdo_bmc',
                 bounds='mapping %s, operations %s, inhibit %d x100us, event %d ms, type %d, written times %s; mapped values symbolic' % (mapname, seq, inh, evt, ttype, list(vals[:len(seq)])))
 
 
@@ -661,6 +675,13 @@ def c12(tier):
         if 'E' in sq or 'I' in sq:
             out.append(tpdo_inst('aw_ab', sq, inh, evt, tt, vals=(2, 3, 2, 3, 2, 3, 2, 3, 2)))
             out.append(tpdo_inst('aw_ab', sq, inh, evt, tt, vals=(0, 0, 0, 0, 0, 0, 0, 0, 0)))
+    # retyping between synchronous and event-driven, inhibit time ended before a parameter write, two-phase histories
+    for sq, inh, evt, tt, t2 in (('NVKUYYYY', 0, 0, 2, 255), ('NVKUYYG', 0, 0, 2, 254), ('VKUNYYYG', 0, 0, 3, 254), ('NVKUYYYY', 0, 0, 254, 2),
+                                 ('NGVKUYYY', 0, 0, 255, 1), ('NYVKUYYY', 0, 0, 2, 3), ('NVKUTTG', 0, 2, 1, 254)):
+        out.append(tpdo_inst('aw_ab', sq, inh, evt, tt, type2=t2))
+    for sq, inh, evt, tt in (('NGTTETT', 20, 0, 254), ('NGTTTETT', 20, 0, 254), ('NGTTVUG', 20, 0, 254), ('NGTTSNG', 20, 0, 254), ('NGTTGTTE', 20, 0, 254),
+                             ('NGTTTGE', 20, 2, 254), ('NGTEGTT', 10, 0, 254)):
+        out.append(tpdo_inst('aw_ab', sq, inh, evt, tt, vals=(2, 2, 2, 2, 2, 2, 2, 2, 2)))
     if tier != 'quick':
         import itertools
         for t in itertools.product('GTOE', repeat=5):
@@ -730,7 +751,7 @@ def c19(tier):
     return out
 
 
-RESET_H = ['W', 'WT', 'X', 'XT', 'x', 'NET', 'NIGG', 'NGET', 'kh', 'khT', 'a', 'b', 'c', 'cT', 'L', 'M', 'MM', 'C', 'CT', 'NS', 'WXkhNE']
+RESET_H = ['W', 'WT', 'X', 'XT', 'x', 'NET', 'NIGG', 'NGET', 'kh', 'khT', 'a', 'b', 'c', 'cT', 'L', 'M', 'MM', 'C', 'CT', 'NS', 'WXkhNE', 'WING', 'WINGT', 'INGG', 'XTT', 'WNEGT', 'CWT', 'khTT', 'NWIGE']
 RESET_P = ['TTTT', 'uvTT', 'dqwT', 'YyNY', 'hTTTg', 'lcrT', 'emeT', 'NGTT', 'cTTTT', 'NYGT']
 
 
